@@ -24,10 +24,11 @@
       the same inputs, cells and revision.
   `c05_bound` was false on the unchanged tree (DESIGN.md §C05); with the repair of
   `maybe_changed_after_cold` (`record_use` after the re-execution, mirrored in `mcaStep`) it is
-  PROVED below for histories that never set the capacity to 0 (`c05_cover`, `c05_bound`).  Not
-  covered: values cached while the capacity was 0 and kept after it became non-zero ("requested
-  since enabled" needs a ghost set; intended statement: the same with `Cached` restricted to keys
-  requested since the last `lruCap 0`).
+  PROVED below for histories that never set the capacity to 0 (`c05_cover`, `c05_bound`).
+  PROVED ELSEWHERE (Props/C05Bound.lean) for ALL histories, capacity-0 phases included: the same
+  with `Cached` restricted to the ghost set of keys requested since the capacity last became
+  non-zero (`c05_cover_req`, `c05_bound_req`); the unrestricted bound is false across such a phase
+  (`c05_bound_unrestricted_false`).
   Kept from the earlier stage: `c05_transparent_noLru_partial` (programs without `lru` kinds, S3a
   invariant).
 -/
